@@ -16,7 +16,7 @@ F2(gk) == CASE gk = "black" -> "abs" [] gk = "white" -> "abs" [] gk = "required"
 FnLim(l, f) == [k |-> "fn", n |-> l.n, f |-> f]
 
 HBase(h) == [evenOdd |-> h.eo, cut |-> Cut, cutFact |-> CutFact, xs |-> XsOf("frac"), cval |-> CVal, vars |-> {"x"}, ivars |-> {"c"},
-             tol |-> Tols["default"], userfuncs |-> {}, forbidden |-> {}, required |-> {}, listing |-> "black", debug |-> FALSE]
+             tol |-> Tols["default"], userfuncs |-> {}, forbidden |-> {}, required |-> {}, listing |-> "black", debug |-> FALSE, removed |-> {}, userconsts |-> {}]
 HCfg(h, g) ==
   LET b == HBase(h) IN
   CASE h.gk = "black" -> (IF g = 1 THEN [b EXCEPT !.forbidden = {"cos"}] ELSE b)
